@@ -7,8 +7,9 @@
 From Coq Require Import String.
 From Statham.Model Require Import Str Json Elem PyNum Validate Equality Names Tables Parser SerJson.
 From Statham.Generated Require Gen_signatures Gen_unicode Gen_reserved Gen_constants Gen_parser_tables.
-From Statham.Model Require Import Spec6 Plain RunHelpers.
-From Statham.Proofs Require Import Agree_tables ParserDefaultProof SerJsonProof NamesProof JsonEqProof C01Plain C01Parse C03Meaning C06Meaning.
+From Statham.Model Require Import Spec6 Plain RunHelpers NfFrag.
+From Statham.Proofs Require Import Agree_tables ParserDefaultProof SerJsonProof NamesProof JsonEqProof C01Plain C01Parse C03Meaning C06Meaning C06RoundBase C06Round.
+From Statham.Proofs Require C01Examples.
 Local Open Scope string_scope.
 Local Open Scope list_scope.
 
@@ -86,3 +87,41 @@ Proof.
   split; [discriminate|]. split; reflexivity.
 Qed.
 Print Assumptions C06_idempotence_refuted.
+
+(* ---- the syntactic round trip on the class-free normal form -------------------------------------
+   nf (C06RoundBase.v) describes what the parser builds from class-free schemas: literals free of
+   _x_autotitle, only keywords of the class's constructor, properties keyed by the attribute name of
+   their JSON name with the required flag read off the required list, no empty required list or
+   properties map (finding K24 otherwise), dependencies listed names first, compositions with at
+   least two members and no Element() member in an allOf.  For every such element, in every parse
+   state, parsing the document the serializer writes returns the element itself and leaves the
+   state alone; so a further round trip reproduces the document exactly. *)
+Theorem C06_round_trip_normal_form : forall cfg e st, cfg_okb cfg = true -> nf cfg e ->
+  parse_element cfg (ser_top true true [] e) st = POk (e, st).
+Proof. intros cfg e st Hc Hn. exact (ser_parse_id cfg Hc e Hn st). Qed.
+Print Assumptions C06_round_trip_normal_form.
+
+Theorem C06_round_trip_document : forall cfg e st e' st', cfg_okb cfg = true -> nf cfg e ->
+  parse_element cfg (ser_top true true [] e) st = POk (e', st') ->
+  e' = e /\ st' = st /\ ser_top true true [] e' = ser_top true true [] e.
+Proof. intros cfg e st e' st' Hc Hn H. exact (round_trip_document cfg e st e' st' Hc Hn H). Qed.
+Print Assumptions C06_round_trip_document.
+
+(* the premises are decided by computation: the executable checker of the normal form is sound, and
+   the configuration read from /repo (refused keywords, composition keyword order) satisfies cfg_okb *)
+Theorem C06_normal_form_checker : forall cfg fuel e, nfb cfg fuel e = true -> nf cfg e.
+Proof. exact nfb_sound. Qed.
+Print Assumptions C06_normal_form_checker.
+
+Theorem C06_real_config_round : forall u r,
+  cfg_okb (mkCfg u r Gen_constants.unsupported_keywords Gen_parser_tables.comp_order_now) = true.
+Proof. intros u r. vm_compute. reflexivity. Qed.
+
+(* non-vacuity: the element parsed from the example schema of C01Examples.v (every keyword family,
+   compositions, tuple items, dependencies of both kinds) lies in the normal form *)
+Example C06_normal_form_inhabited :
+  match parse_element C01Examples.ex_cfg C01Examples.ex_schema [] with
+  | POk (e, _) => nfb C01Examples.ex_cfg 50 e = true
+  | PErr _ => False
+  end.
+Proof. vm_compute. reflexivity. Qed.
